@@ -15,7 +15,8 @@ def main():
     engines = {}
     for pid in ALL:
         path = os.path.join(ROOT, "vf", "props", pid.lower() + ".py")
-        if not os.path.exists(path):
+        ready = set(open(os.path.join(ROOT, "ready.txt")).read().split())
+        if not os.path.exists(path) or pid not in ready:
             na.append({"property_id": pid, "reason": "check not built yet (work in progress; runtime monitoring applies, see DESIGN.md section 4)"})
             continue
         m = importlib.import_module("vf.props." + pid.lower())
